@@ -1,3 +1,176 @@
-(* Properties_C03.v -- C03: declared non-body parameters are bound to exactly the value their text denotes, or 422.
-   Theorems only; each is closed by exact of a lemma from Proofs/. *)
-From V Require Import BinderSpec.
+(* Properties_C03.v -- C03: declared non-body parameters are bound to exactly the value their text denotes,
+   or 422 naming the parameter; binding never panics.
+   Theorems only; each is closed by exact of a lemma from Proofs/. bind_param is the model of the Go binder
+   (Model/Binder.v, tied to the code by the correspondence run); O ranges over every behaviour of the
+   library oracles (format registry, UnmarshalText of registered formats, strconv.ParseFloat); valid is the
+   verdict of the validate library on the bound value (None = accepted). *)
+From V Require Import Bytes Decimal Binder BinderSpec DecimalProofs BinderProofs BinderClauses.
+Local Open Scope nat_scope.
+
+(* strconv.ParseInt(s, 10, 64), as the binder calls it, accepts exactly the base-10 literals (optional sign,
+   at least one digit, nothing else) that denote an int64, and returns the integer they denote *)
+Theorem C03_parse_int_is_literal : forall s z,
+  parse_int_dec s = Some z <-> dec_literal s z /\ (- 2 ^ 63 <= z < 2 ^ 63)%Z.
+Proof. exact parse_int_dec_iff. Qed.
+Print Assumptions C03_parse_int_is_literal.
+
+(* an integer parameter (any location) whose last occurrence is the non-empty text txt is bound to intw(z)
+   exactly when txt is a base-10 literal denoting z and -2^(w-1) <= z < 2^(w-1); every other text is answered
+   422 (invalid type) naming the parameter; nothing else is ever bound *)
+Theorem C03_int_exact : forall O d rq w txt,
+  request_wf rq = true -> gtype_for O d = Some (GScalar (SInt w)) ->
+  last_or_empty (occurrences d rq) = txt -> txt <> [] ->
+  (forall z, bind_param O d rq None = Bound (VScalar (VInt w z)) <-> dec_literal txt z /\ int_range w z) /\
+  (forall valid, (~ exists z, dec_literal txt z /\ int_range w z) ->
+                 bind_param O d rq valid = R422 (d_name d) code_invalid_type) /\
+  (forall valid v, bind_param O d rq valid = Bound v ->
+                   exists z, v = VScalar (VInt w z) /\ dec_literal txt z /\ int_range w z).
+Proof. exact int_exact. Qed.
+Print Assumptions C03_int_exact.
+
+(* the width is the one the declared format names: int8, int16, int32; int64, any other format or none = 64 *)
+Theorem C03_int_width : forall O d w, gtype_for O d = Some (GScalar (SInt w)) ->
+  d_kind d = KInteger /\
+  w = (if bytes_eqb (d_format d) s_int8 then 8
+       else if bytes_eqb (d_format d) s_int16 then 16
+       else if bytes_eqb (d_format d) s_int32 then 32 else 64).
+Proof. exact int_width. Qed.
+Print Assumptions C03_int_width.
+
+(* scalars: the outcome depends on the request only through the last text sent for the name and on whether
+   any was sent; in particular a later occurrence overrides all earlier ones *)
+Theorem C03_scalar_last_wins : forall O d rq rq' valid t,
+  request_wf rq = true -> request_wf rq' = true -> gtype_for O d = Some (GScalar t) ->
+  last_or_empty (occurrences d rq) = last_or_empty (occurrences d rq') ->
+  is_nil (occurrences d rq) = is_nil (occurrences d rq') ->
+  bind_param O d rq valid = bind_param O d rq' valid.
+Proof. exact scalar_last_wins. Qed.
+Print Assumptions C03_scalar_last_wins.
+
+Theorem C03_query_last_occurrence_wins : forall O d t rq pre post v valid,
+  request_wf rq = true -> d_in d = LQuery -> gtype_for O d = Some (GScalar t) ->
+  has_key (d_name d) post = false ->
+  bind_param O d (with_query rq (pre ++ (d_name d, v) :: post)) valid =
+  bind_param O d (with_query rq [(d_name d, v)]) valid.
+Proof. exact query_last_occurrence_wins. Qed.
+Print Assumptions C03_query_last_occurrence_wins.
+
+Theorem C03_form_last_occurrence_wins : forall O d t rq pre post v valid,
+  request_wf rq = true -> d_in d = LForm -> gtype_for O d = Some (GScalar t) ->
+  has_key (d_name d) post = false ->
+  bind_param O d (with_form rq (pre ++ (d_name d, v) :: post)) valid =
+  bind_param O d (with_form rq [(d_name d, v)]) valid.
+Proof. exact form_last_occurrence_wins. Qed.
+Print Assumptions C03_form_last_occurrence_wins.
+
+(* arrays: the items are every occurrence (multi) or the pieces of the last occurrence (csv/ssv/tsv/pipes:
+   split at the separator, trimmed, empty pieces dropped); the handler receives exactly the values the items
+   denote, in order, in a slice of the declared item type; anything else is not bound *)
+Theorem C03_array_items : forall O d rq t vs,
+  request_wf rq = true -> gtype_for O d = Some (GSlice t) ->
+  array_items d (occurrences d rq) <> [] ->
+  (bind_param O d rq None = Bound (VSlice t vs) <->
+   (bytes_eqb (d_cf d) s_multi && negb (allows_multi d)) = false /\
+   Forall2 (fun x v => item_value O d t x = Ok v) (array_items d (occurrences d rq)) vs /\
+   (array_items d (occurrences d rq) = [[]] -> d_allow_empty d = false -> d_required d = true -> d_default d <> None)).
+Proof. exact array_items_bound. Qed.
+Print Assumptions C03_array_items.
+
+(* multi outside query and formData is answered 422 naming the parameter *)
+Theorem C03_array_multi_elsewhere_422 : forall O d rq valid t,
+  request_wf rq = true -> gtype_for O d = Some (GSlice t) ->
+  bytes_eqb (d_cf d) s_multi = true -> allows_multi d = false ->
+  bind_param O d rq valid = R422 (d_name d) code_invalid_type.
+Proof. exact array_multi_outside_query_form. Qed.
+Print Assumptions C03_array_multi_elsewhere_422.
+
+(* the split: joined by the separator the pieces give the text back, no piece contains the separator, and
+   that determines the pieces; items are the trimmed non-empty pieces *)
+Theorem C03_split_joins_back : forall sep s, join_sep sep (split_raw sep s) = s.
+Proof. exact split_raw_join. Qed.
+Print Assumptions C03_split_joins_back.
+Theorem C03_split_no_separator_inside : forall sep s, Forall (fun it => ~ In sep it) (split_raw sep s).
+Proof. exact split_raw_no_sep. Qed.
+Print Assumptions C03_split_no_separator_inside.
+Theorem C03_split_unique : forall sep l, l <> [] -> Forall (fun it => ~ In sep it) l -> split_raw sep (join_sep sep l) = l.
+Proof. exact split_raw_unique. Qed.
+Print Assumptions C03_split_unique.
+Theorem C03_split_items_trimmed : forall data cf it, In it (split_by_format data cf) ->
+  it <> [] /\ exists piece, In piece (split_raw (sep_of cf) data) /\ it = trim_space piece.
+Proof. exact split_items_trimmed. Qed.
+Print Assumptions C03_split_items_trimmed.
+
+(* the declared default is bound when the parameter is absent or its (last) text is empty *)
+Theorem C03_default_absent_or_empty : forall O d rq t v,
+  request_wf rq = true -> gtype_for O d = Some (GScalar t) ->
+  d_default d = Some (DScalar v) -> sval_has_type v t = true ->
+  last_or_empty (occurrences d rq) = [] ->
+  bind_param O d rq None = Bound (VScalar v).
+Proof. exact default_scalar. Qed.
+Print Assumptions C03_default_absent_or_empty.
+
+Theorem C03_default_array_no_items : forall O d rq t l,
+  request_wf rq = true -> gtype_for O d = Some (GSlice t) ->
+  d_default d = Some (DSlice l) -> forallb (fun v => sval_has_type v t) l = true ->
+  (bytes_eqb (d_cf d) s_multi && negb (allows_multi d)) = false ->
+  array_items d (occurrences d rq) = [] ->
+  bind_param O d rq None = Bound (VSlice t l).
+Proof. exact default_array. Qed.
+Print Assumptions C03_default_array_no_items.
+
+(* a required parameter without default that is absent, or empty while empty values are not allowed: 422
+   (required) naming the parameter *)
+Theorem C03_required : forall O d rq valid t,
+  request_wf rq = true -> gtype_for O d = Some (GScalar t) ->
+  d_required d = true -> d_default d = None ->
+  (occurrences d rq = [] \/ (d_allow_empty d = false /\ last_or_empty (occurrences d rq) = [])) ->
+  bind_param O d rq valid = R422 (d_name d) code_required.
+Proof. exact required_scalar. Qed.
+Print Assumptions C03_required.
+
+Theorem C03_required_array : forall O d rq valid t,
+  request_wf rq = true -> gtype_for O d = Some (GSlice t) ->
+  d_required d = true -> d_default d = None ->
+  (bytes_eqb (d_cf d) s_multi && negb (allows_multi d)) = false ->
+  (occurrences d rq = [] \/
+   (d_allow_empty d = false /\ (array_items d (occurrences d rq) = [] \/ array_items d (occurrences d rq) = [[]]))) ->
+  bind_param O d rq valid = R422 (d_name d) code_required.
+Proof. exact required_array. Qed.
+Print Assumptions C03_required_array.
+
+(* a failing declared validation: the handler does not run (the outcome is never Bound), the answer is the
+   422 of the validation naming the parameter; a text that does not bind is answered by the binder first *)
+Theorem C03_validation_422 : forall O d rq c v, bind_param O d rq (Some c) <> Bound v.
+Proof. exact validation_422. Qed.
+Print Assumptions C03_validation_422.
+Theorem C03_validation_outcome : forall O d rq c v,
+  bind_param O d rq None = Bound v -> bind_param O d rq (Some c) = R422 (d_name d) c.
+Proof. exact validation_outcome. Qed.
+Print Assumptions C03_validation_outcome.
+
+(* header parameters are found under every spelling of the declared name: the values the binder reads are
+   those of the header lines whose name equals the declared name up to ASCII case *)
+Theorem C03_header_ci : forall d rq, request_wf rq = true -> d_in d = LHeader ->
+  fst (fst (source_get_ok d rq)) =
+  List.map snd (List.filter (fun p => eq_fold (fst p) (d_name d)) (r_header rq)).
+Proof. exact header_ci. Qed.
+Print Assumptions C03_header_ci.
+Theorem C03_canonical_key_ci : forall n1 n2,
+  forallb is_token_byte n1 = true -> eq_fold n1 n2 = true -> canon_key n1 = canon_key n2.
+Proof. exact canon_key_ci. Qed.
+Print Assumptions C03_canonical_key_ci.
+
+(* for every declaration of the modelled language (the four primitive types with any format, arrays of them
+   with any collection format, default conforming to the type), every request, every answer of the oracles:
+   bound, or 422 naming the parameter. Never a panic. *)
+Theorem C03_total : forall O d rq valid, decl_wf O d = true ->
+  (exists v, bind_param O d rq valid = Bound v) \/ (exists c, bind_param O d rq valid = R422 (d_name d) c).
+Proof. exact bind_total. Qed.
+Print Assumptions C03_total.
+
+(* the model of the code equals the specification written in the property's vocabulary
+   (BinderSpec.spec_outcome: occurrences by the rule of the location, denotation of a text, clauses) *)
+Theorem C03_model_meets_spec : forall O d rq valid, request_wf rq = true -> gtype_for O d <> None ->
+  bind_param O d rq valid = spec_outcome O d rq valid.
+Proof. exact bind_param_meets_spec. Qed.
+Print Assumptions C03_model_meets_spec.
